@@ -10,7 +10,10 @@ import (
 	"cosmossdk.io/math"
 	abci "github.com/cometbft/cometbft/abci/types"
 	sdk "github.com/cosmos/cosmos-sdk/types"
+	authtypes "github.com/cosmos/cosmos-sdk/x/auth/types"
+	govtypes "github.com/cosmos/cosmos-sdk/x/gov/types"
 
+	fmodule "github.com/tendermint/fundraising/x/fundraising/module"
 	ftypes "github.com/tendermint/fundraising/x/fundraising/types"
 
 	"verif/mc/world"
@@ -52,6 +55,8 @@ type Op struct {
 	// More: further entries of the same AddAllowedBidders call, "bidder:max,bidder:max" (the call takes a list).
 	// KeepOnError: the calling module handles a failure of the call itself and keeps what was written
 	// so far (no transaction boundary around the call). Only the C14 histories use these two.
+	// Reversed: see the reimport op
+	Reversed    bool   `json:"reversed,omitempty"`
 	More        string `json:"more,omitempty"`
 	KeepOnError bool   `json:"keep_on_error,omitempty"`
 	// EntryAIDOther: the AllowedBidder entry handed to the keeper API carries another auction's id (AID xor 1)
@@ -102,6 +107,11 @@ func (o Op) String() string {
 		return fmt.Sprintf("create_batch(%s p=%s min=%s %s/%s start=%d end=%d sched=%v ext=%d rate=%s)", o.Signer, o.StartPrice, o.MinPrice, o.Sell, o.PayDenom, o.StartK, o.EndK, o.Sched, o.MaxExt, o.Rate)
 	case "donate":
 		return fmt.Sprintf("donate(%s -> %s#%d %s)", o.Signer, o.To, o.AID, o.Coin)
+	case "reimport":
+		if o.Reversed {
+			return "export+import(lists of the file reversed)"
+		}
+		return "export+import"
 	case "update_params":
 		return fmt.Sprintf("update_params(%s cf=%s bf=%s ep=%d)", o.Authority, o.CreationFee, o.BidFee, o.ExtPeriod)
 	}
@@ -228,7 +238,7 @@ func (o Op) Msg(w *world.World) sdk.Msg {
 	case "update_params":
 		auth := o.Authority
 		if auth == "gov" {
-			auth = w.K.GetAuthority()
+			auth = GovAddr()
 		} else {
 			auth = msgAddr(auth)
 		}
@@ -237,6 +247,10 @@ func (o Op) Msg(w *world.World) sdk.Msg {
 	}
 	return nil
 }
+
+// GovAddr is the governance module account: the documented (and only) signer of MsgUpdateParams. It is
+// derived here, not read from the keeper, so that an application wired with another authority is seen.
+func GovAddr() string { return authtypes.NewModuleAddress(govtypes.ModuleName).String() }
 
 type hasValidateBasic interface{ ValidateBasic() error }
 
@@ -364,6 +378,58 @@ func (o Op) Apply(w *world.World, ctx sdk.Context) (sdk.Context, Result) {
 			if o.KeepOnError && res.Panic == "" {
 				write()
 			}
+			return ctx, res
+		}
+		write()
+		return ctx, res
+	case "reimport":
+		// the chain is restarted from its own exported state: ExportGenesis -> JSON -> InitGenesis into
+		// the wiped module store (bank balances stay as they are). Reversed lists the bids, allow-list
+		// entries and instalments of the file in the opposite order (a hand-merged but valid file).
+		cctx, write := ctx.CacheContext()
+		res := Result{Stage: "api"}
+		func() {
+			defer func() {
+				if r := recover(); r != nil {
+					res.Err = fmt.Errorf("panic during re-import: %v", r)
+				}
+			}()
+			gs, err := fmodule.ExportGenesis(cctx, w.K)
+			if err != nil {
+				res.Err = err
+				return
+			}
+			cdc := w.App.AppCodec()
+			bz, err := cdc.MarshalJSON(gs)
+			if err != nil {
+				res.Err = err
+				return
+			}
+			var gs2 ftypes.GenesisState
+			if err := cdc.UnmarshalJSON(bz, &gs2); err != nil {
+				res.Err = err
+				return
+			}
+			if o.Reversed {
+				for i, j := 0, len(gs2.BidList)-1; i < j; i, j = i+1, j-1 {
+					gs2.BidList[i], gs2.BidList[j] = gs2.BidList[j], gs2.BidList[i]
+				}
+				for i, j := 0, len(gs2.AllowedBidderList)-1; i < j; i, j = i+1, j-1 {
+					gs2.AllowedBidderList[i], gs2.AllowedBidderList[j] = gs2.AllowedBidderList[j], gs2.AllowedBidderList[i]
+				}
+				for i, j := 0, len(gs2.VestingQueueList)-1; i < j; i, j = i+1, j-1 {
+					gs2.VestingQueueList[i], gs2.VestingQueueList[j] = gs2.VestingQueueList[j], gs2.VestingQueueList[i]
+				}
+			}
+			if err := gs2.Validate(); err != nil {
+				res.Err = err
+				return
+			}
+			wipeModuleStore(w, cctx)
+			res.Err = fmodule.InitGenesis(cctx, w.K, gs2)
+		}()
+		if res.Err != nil {
+			res.ErrStr = res.Err.Error()
 			return ctx, res
 		}
 		write()
